@@ -43,8 +43,8 @@ def Bytes.InRange (b : Bytes) : Prop := b.status < 256 ∧ b.d1 < 128 ∧ b.d2 <
 /-- a short message with a valid status byte -/
 def Bytes.Valid (b : Bytes) : Prop := 128 ≤ b.status ∧ b.status < 256 ∧ b.d1 < 128 ∧ b.d2 < 128
 
-instance (b : Bytes) : Decidable b.InRange := by unfold Bytes.InRange; infer_instance
-instance (b : Bytes) : Decidable b.Valid := by unfold Bytes.Valid; infer_instance
+instance Bytes.decInRange (b : Bytes) : Decidable b.InRange := by unfold Bytes.InRange; infer_instance
+instance Bytes.decValid (b : Bytes) : Decidable b.Valid := by unfold Bytes.Valid; infer_instance
 
 /-- Rust primitive integer types -/
 inductive PrimTy
@@ -66,7 +66,7 @@ def PrimTy.maxVal (pw : Nat) (t : PrimTy) : Int :=
   if t.signed then (2 ^ (t.bits pw - 1) : Nat) - 1 else (2 ^ (t.bits pw) : Nat) - 1
 
 def PrimTy.InRange (pw : Nat) (t : PrimTy) (x : Int) : Prop := t.minVal pw ≤ x ∧ x ≤ t.maxVal pw
-instance (pw t x) : Decidable (PrimTy.InRange pw t x) := by unfold PrimTy.InRange; infer_instance
+instance PrimTy.decInRange (pw t x) : Decidable (PrimTy.InRange pw t x) := by unfold PrimTy.InRange; infer_instance
 
 /-- Rust's `x as t` for integer `x` (two's-complement truncation / reinterpretation). -/
 def PrimTy.cast (pw : Nat) (t : PrimTy) (x : Int) : Int :=
